@@ -87,6 +87,32 @@ CHECKS = {
         "dump written for the harness (ast.dump does not descend into tuple-valued fields).",
         "DESIGN.md 3/C14",
     ),
+    "C06": (
+        "Hypothesis-generated (first pickle, trailing bytes, delivery) triples and stacks; "
+        "byte-exact round-trip / stream-position / partition oracle vs pickletools + stock "
+        "unpickler",
+        "Generated-input search: natural pickles at all protocols, assembler programs and "
+        "boundary-length constants followed by arbitrary trailing bytes, delivered nine ways; "
+        "dumps() must equal the prefix delimited independently by pickletools.genops (cross-checked "
+        "with the stock unpickler's tell() for plain data), streams must be left right after it "
+        "with the rest intact, and stacks must partition into their inputs.",
+        "Trusted: pickletools.genops / pickle.load stopping points; KF-C06-1 (non-seekable stream "
+        "drained) is an open known finding, its clause is not asserted for that delivery.",
+        "DESIGN.md 3/C06",
+    ),
+    "C15": (
+        "Hypothesis boundary-biased values through every injection/creation route with a sink "
+        "oracle under the stock unpickler; exhaustive class x typed-argument encode/read-back "
+        "round-trip via pickletools",
+        "Generated-input search: each value either is refused when the pickle is built or "
+        "arrives in the unpickling process as an equal value of the same type (observed by a "
+        "harmless sink); each constructible opcode class with arguments typed by its pickletools "
+        "descriptor either refuses to encode or is read back by pickletools as the same opcode "
+        "and argument.",
+        "Trusted: stock unpickler and pickletools as arbiters; five encoder classes are an open "
+        "known finding (KF-C15-1), excluded per class and replayed.",
+        "DESIGN.md 3/C15",
+    ),
 }
 
 PENDING = {}
